@@ -1215,7 +1215,129 @@ def prefix_lifetimes(rng, rounds=None):
     return hist
 
 
-PREFIXES = {"unchecked-simplify": prefix_unchecked_simplify, "empty-branch": prefix_empty_branch, "early-pickle": prefix_early_pickle,
+ORDERINGS = ("ULT", "ULE", "UGT", "UGE", "SLT", "SLE", "SGT", "SGE")
+
+
+def boundary_constants(w):
+    """0, 1, INT_MAX, INT_MIN, all-ones and their neighbours at width w"""
+    top, mid = (1 << w) - 1, 1 << (w - 1)
+    return sorted({0, 1, 2, mid - 2, mid - 1, mid, mid + 1, top - 2, top - 1, top})
+
+
+def _ask_bound(rng, s, v, i=None):
+    """satisfiable() / all values / the extrema of v (both readings), in an order picked by i (or at random)"""
+    qs = [{"s": s, "op": "satisfiable", "extra": []}, {"s": s, "op": "eval", "e": v, "n": 20, "extra": []},
+          {"s": s, "op": "min", "e": v, "signed": False, "extra": []}, {"s": s, "op": "max", "e": v, "signed": True, "extra": []},
+          {"s": s, "op": "max", "e": v, "signed": False, "extra": []}, {"s": s, "op": "min", "e": v, "signed": True, "extra": []}]
+    if i is None:
+        k = rng.choice([2, 3, 4])
+        head = [qs[0]] if rng.random() < 0.6 else []
+        rest = [q for q in qs if q not in head]
+        rng.shuffle(rest)
+        return head + rest[:k]
+    rot = i % 4
+    qs = [qs[0], qs[1], qs[2 + 3 * (i // 4 % 2)], qs[3 + i // 4 % 2]]      # min and max: one signed, one unsigned
+    return qs[rot:] + qs[:rot]
+
+
+def single_bound_histories(variables=("x", "y"), flipped=True):
+    """bounded-exhaustive: for every ordering OP (unsigned and signed) and EVERY constant c of the width, the history whose first
+    and only constraint is `v OP c` (and, `flipped`, `c OP v` for the boundary constants), followed at once by satisfiable(),
+    all values, min, max (the order rotates); the empty bounds (`v <u 0`, `v >u all-ones`, `v <s INT_MIN`, `v >s INT_MAX`)
+    are among them.  Yields (edge, history): edge = the constant is 0 / INT_MAX / INT_MIN / all-ones, written the usual way"""
+    i = 0
+    for v in variables:
+        w = 4 if v == "x" else 3
+        for op in ORDERINGS:
+            for c in range(1 << w):
+                edge = c in (0, (1 << (w - 1)) - 1, 1 << (w - 1), (1 << w) - 1)
+                yield edge, [_add(["%s(%s, %d)" % (op, v, c)])] + _ask_bound(None, 0, v, i)
+                i += 1
+                if flipped and edge:
+                    yield False, [_add(["%s(BVV(%d, %d), %s)" % (op, c, w, v)])] + _ask_bound(None, 0, v, i)
+                    i += 1
+
+
+def prefix_single_bound(rng):
+    """The FIRST and only constraint of a solver is a bound of a bare variable against a BOUNDARY constant (0, 1, INT_MAX,
+    INT_MIN, all-ones and their neighbours) under one of the eight orderings - sometimes written the other way round, sometimes
+    added to a branch of a blank solver -, followed AT ONCE by satisfiable() / all values / extrema (on the solver, sometimes
+    on a fresh branch of it too).  Among them are the empty bounds (`v <u 0`, `v >u all-ones`, `v <s INT_MIN`, `v >s INT_MAX`)
+    and the bounds that exclude nothing: whoever answers such a set without asking the solver must get the signedness right."""
+    v = rng.choice(["x", "x", "y", "z"])
+    w = 4 if v == "x" else 3
+    op, c = rng.choice(ORDERINGS), rng.choice(boundary_constants(w))
+    if rng.random() < 0.4:      # one of the bounds that leave no room / all the room, either reading
+        op = rng.choice(ORDERINGS)
+        c = rng.choice([0, (1 << w) - 1] if rng.random() < 0.5 else [(1 << (w - 1)) - 1, 1 << (w - 1)])
+    con = "%s(%s, %d)" % (op, v, c) if rng.random() < 0.85 else "%s(BVV(%d, %d), %s)" % (op, c, w, v)
+    hist, t, n = [], 0, 1
+    if rng.random() < 0.15:
+        hist.append({"s": 0, "op": "branch"})
+        t, n = rng.choice([0, 1]), 2
+    hist.append(_add([con], t))
+    hist += _ask_bound(rng, t, v)
+    if rng.random() < 0.25:
+        hist.append({"s": t, "op": "branch"})
+        hist += _ask_bound(rng, n, v)[:2]
+    return hist
+
+
+def prefix_span_free(rng):
+    """A variable p is constrained, a variable q is FREE (no constraint mentions it).  ONE question is asked whose names are
+    exactly {p, q} (a value / an extremum of an expression over both, solution(), satisfiable() under an extra constraint over
+    both).  Then q ALONE is constrained (`q == k`, a range) - on the solver, or on a branch taken after the question - which
+    touches nothing that knows p; then the same is asked again (all values of the expressions over both, extrema, solution()):
+    whatever was remembered for {p, q} while q was free must not answer now.  The other side of a branch keeps q free."""
+    _size_of("x")
+    uni = _UNI[0]
+    vs = ["x", "y", "z"]
+    rng.shuffle(vs)
+    p, q, r = vs
+    exprs, P, Q = _spanning(p, q)
+    hist = [_add([rng.choice(_ranges(p))])]
+    if rng.random() < 0.3:
+        hist.append(_add([rng.choice(_ranges(r))]))
+    if rng.random() < 0.4:
+        hist.insert(rng.randrange(1, len(hist) + 1), {"s": 0, "op": "satisfiable", "extra": []})
+    held = [c for d in hist if d["op"] == "add" for c in d["cs"]]
+    e = rng.choice(exprs)
+
+    def span_query(s, cons, small):
+        vals = sorted(uni.value_set(uni.parse(e), uni.conj([uni.parse(c) for c in cons]))) or [0]
+        k = rng.random()
+        if k < 0.4:
+            return {"s": s, "op": "eval", "e": e, "n": rng.choice([1, 2, 2]) if small else 40, "extra": []}
+        if k < 0.55:
+            return {"s": s, "op": rng.choice(["min", "max"]), "e": e, "signed": False, "extra": []}
+        if k < 0.8:
+            return {"s": s, "op": "solution", "e": e, "v": rng.choice(vals) if rng.random() < 0.7 else rng.randrange(16), "extra": []}
+        return {"s": s, "op": "satisfiable", "extra": ["%s == %d" % (e, rng.choice(vals) if rng.random() < 0.7 else rng.randrange(16))]}
+
+    hist.append(span_query(0, held, True))
+    t, other = 0, None
+    if rng.random() < 0.4:
+        hist.append({"s": 0, "op": "branch"})
+        t = rng.choice([0, 1])
+        other = 1 - t
+    wq = 4 if q == "x" else 3
+    cq = "%s == %d" % (q, rng.randrange(1 << wq)) if rng.random() < 0.6 else rng.choice(_ranges(q))
+    hist.append(_add([cq], t))
+    for j in range(rng.choice([2, 3])):
+        if j == 0 and rng.random() < 0.5:
+            hist.append({"s": t, "op": "eval", "e": e, "n": 40, "extra": []})
+        else:
+            d = span_query(t, held + [cq], False)
+            if "e" in d and rng.random() < 0.3:
+                d["e"] = rng.choice(exprs)
+            hist.append(d)
+    if other is not None:
+        hist.append({"s": other, "op": "eval", "e": e, "n": 40, "extra": []} if rng.random() < 0.6 else span_query(other, held, False))
+    return hist
+
+
+PREFIXES = {"single-bound": prefix_single_bound, "span-free": prefix_span_free,
+            "unchecked-simplify": prefix_unchecked_simplify, "empty-branch": prefix_empty_branch, "early-pickle": prefix_early_pickle,
             "core-whatif": prefix_core_whatif, "annotated-core": prefix_annotated_core, "exhaust-then-connect": prefix_exhaust_then_connect,
             "branch-rebuild": prefix_branch_rebuild, "look-then-branch": prefix_look_then_branch, "worker-between": prefix_worker_between,
             "span-then-branch": prefix_span_then_branch, "exhaust-downsize": prefix_exhaust_downsize, "lifetimes": prefix_lifetimes}
